@@ -446,21 +446,29 @@ def segAt (files : List FileNode) (r : Ref) : Option Seg :=
   | some fn => fn.segs[r.2]?
   | none => none
 
-/-- `commitBlock(refs)`: one PutB of the concatenation, then every ref'd mem segment becomes a
-stored segment `(loc, blocksize, offset within block, len)`. Segments that are not mem segments
-(cannot happen: `flush` only collects mem segments) are left alone. -/
+/-- the buffer a ref points at, if it is a mem segment -/
+def refBuf (files : List FileNode) (r : Ref) : Option Bytes :=
+  match segAt files r with
+  | some (Seg.mem buf _) => some buf
+  | _ => none
+
+def setSeg (files : List FileNode) (r : Ref) (s : Seg) : List FileNode :=
+  match files[r.1]? with
+  | some fn => files.set r.1 { fn with segs := fn.segs.set r.2 s }
+  | none => files
+
+/-- `commitBlock(refs)`: one PutB of the concatenation of the ref'd buffers (taken when the block
+is assembled, under the lock), then every ref'd mem segment becomes a stored segment
+`(loc, blocksize, offset within block, len)`. Refs that are not mem segments (cannot happen:
+`flush` only collects mem segments) are skipped. -/
 def commitBlock (hash : Bytes → Loc) (st : Store) (files : List FileNode) (refs : List Ref) :
     Store × List FileNode :=
-  let block : Bytes := refs.flatMap (fun r => match segAt files r with
-    | some (Seg.mem buf _) => buf | _ => [])
+  let block : Bytes := refs.flatMap (fun r => (refBuf files r).getD [])
   let loc := hash block
   let go := fun (acc : List FileNode × Nat) (r : Ref) =>
-    let (fs, boff) := acc
-    match segAt fs r, fs[r.1]? with
-    | some (Seg.mem buf _), some fn =>
-      (fs.set r.1 { fn with segs := fn.segs.set r.2 (Seg.stored loc block.length boff buf.length) },
-       boff + buf.length)
-    | _, _ => acc
+    match refBuf files r with
+    | some buf => (setSeg acc.1 r (Seg.stored loc block.length acc.2 buf.length), acc.2 + buf.length)
+    | none => acc
   (st.put hash block, (refs.foldl go (files, 0)).1)
 
 /-- `dirnode.flush` for the files of one directory (already in name order). -/
